@@ -9,6 +9,7 @@ request: walk <cfg> <paths> <skip> <regex> <glob> <req> <ext> <nroots> { <tree> 
   faults of=<paths,>|sf=<paths,>|ff=<paths,>|rf=<path#k,>
 reply : err= vis= calls=<e@path@size;…> pkgs=<id@e@path;…> st=<e=status,…> hyp=<0|1> spec=<calls owed, walk order>
         … limithyp=<0|1> specvisits=<visitsScan: handleFile calls of the scan run to the end> (theorem C10_inodes_exact)
+        … cancelhyp=<0|1> cspecerr= cspecvis= cspeccalls= (cancelOutcome on the specification's trace; theorem C10_cancel_outcome)
 -/
 import Scalibr.Base.Wire
 import Scalibr.Model.Gitignore
@@ -199,7 +200,11 @@ def handle (line : String) : String :=
         s!"specst={joinWith "," ((isort (statusLt naming) (roots.flatMap fun (r, f) => (List.range c.nExt).map fun e => (e, statusSpec c f r e))).map fun (e, st) => s!"{e}={showStatus st}")} " ++
         -- hypothesis LimitCfg and right-hand side of theorem C10_inodes_exact
         s!"limithyp={boolStr (decide (c.maxInodes > 0) && !c.errorOnFSErrors && !c.cancelBefore && c.cancelAt.isNone && ext.all (fun x => !x.2.panics))} " ++
-        s!"specvisits={visitsScan c roots}"
+        s!"specvisits={visitsScan c roots} " ++
+        -- hypothesis CancelCfg and right-hand side of theorem C10_cancel_outcome
+        (let co := cancelOutcome (c.cancelAt.getD 0) 0 (traceScan c roots)
+         s!"cancelhyp={boolStr (c.maxInodes = 0 && !c.errorOnFSErrors && !c.cancelBefore && decide (c.cancelAt.getD 0 ≥ 1) && ext.all (fun x => !x.2.panics))} " ++
+         s!"cspecerr={showErr co.2.1} cspecvis={co.2.2} cspeccalls={joinWith ";" ((co.1.filter (·.opened)).map showCall)}")
       | none => "bad-op"
     | _, _, _, _, _, _, _ => "bad-op"
   | _ => "bad-op"
